@@ -1017,3 +1017,101 @@ func (d *Cluster) releasePortLocked(n int) {
 		delete(d.reserve, n)
 	}
 }
+
+// ---------------------------------------------------------------- operational-model expectations (C19, op c19x)
+
+// ExecSeg is one closed segment event as the harness's own bookkeeping sees it: an attempt on the
+// stream positions [P,Q) that was acknowledged (Kind 'o') or cut (Kind 'c'), the positions it
+// executed in the target's order, whether the position Q was stored; Kind 's' = a new segment starts.
+type ExecSeg struct {
+	Kind  byte
+	P, Q  int
+	Store bool
+	App   []int
+}
+
+// ExecExpect prints the `segs` and `auto` lines of op c19x from the segments observed by the harness:
+// auto = every event is admissible for the segment automaton (within its range, nothing twice; an
+// acknowledged one executed everything, per group in order), disc = no cut event stores, prefix =
+// every cut event executed per group a prefix of its part. Computed here from the observations, by
+// the Lean driver from the model's run.
+func ExecExpect(grp []string, segs []ExecSeg) (string, string) {
+	var parts []string
+	auto, disc, prefix := true, true, true
+	part := func(p, q int, g string) []int {
+		var out []int
+		for i := p; i < q; i++ {
+			if grp[i] == g {
+				out = append(out, i)
+			}
+		}
+		return out
+	}
+	for _, sg := range segs {
+		if sg.Kind == 's' {
+			parts = append(parts, "s")
+			continue
+		}
+		a := "."
+		if len(sg.App) > 0 {
+			x := make([]string, len(sg.App))
+			for i, v := range sg.App {
+				x[i] = fmt.Sprint(v)
+			}
+			a = strings.Join(x, ",")
+		}
+		st := 0
+		if sg.Store {
+			st = 1
+		}
+		parts = append(parts, fmt.Sprintf("%c:%d:%d:%s", sg.Kind, sg.Q, st, a))
+		seen := map[int]bool{}
+		for _, v := range sg.App {
+			if seen[v] || v < sg.P || v >= sg.Q {
+				auto = false
+			}
+			seen[v] = true
+		}
+		groups := map[string]bool{}
+		for i := sg.P; i < sg.Q && i < len(grp); i++ {
+			groups[grp[i]] = true
+		}
+		for g := range groups {
+			want := part(sg.P, sg.Q, g)
+			var got []int
+			for _, v := range sg.App {
+				if v >= 0 && v < len(grp) && grp[v] == g {
+					got = append(got, v)
+				}
+			}
+			isPrefix := len(got) <= len(want)
+			for i := 0; isPrefix && i < len(got); i++ {
+				if got[i] != want[i] {
+					isPrefix = false
+				}
+			}
+			switch sg.Kind {
+			case 'o':
+				if !isPrefix || len(got) != len(want) {
+					auto = false
+				}
+			case 'c':
+				if !isPrefix {
+					prefix = false
+				}
+			}
+		}
+		if sg.Kind == 'c' && sg.Store {
+			disc = false
+		}
+	}
+	sl := "."
+	if len(parts) > 0 {
+		sl = strings.Join(parts, ";")
+	}
+	a := "none"
+	if auto {
+		a = "ok"
+	}
+	return sl, fmt.Sprintf("auto %s disc=%v prefix=%v", a, disc, prefix)
+}
